@@ -72,4 +72,14 @@ type (the `MessageType` object of a `ChannelDescriptor` is shared by all peers o
 this is what makes decoding a function of the message's own bytes (`Props.C17.peers_do_not_mix`) -/
 theorem peer_onReceive_clones : Facts.peer_onReceive_clones_message_type = true := by decide
 
+/-- anchors of the decision models and of the channel choice: the evidence reactor punishes exactly
+`*types.ErrInvalidEvidence`; both mempool reactors only log an empty Txs message; a seed treats
+inbound peers specially; `sendPacketMsg` replaces the least channel only on a STRICTLY smaller
+ratio (model: `pickLeast`) -/
+theorem decision_anchors :
+    Facts.ev_receive_punishes_invalid = true ∧
+    Facts.mp_v0_empty_txs_guard = "len(protoTxs) == 0" ∧ Facts.mp_v1_empty_txs_guard = "len(protoTxs) == 0" ∧
+    Facts.pex_seed_inbound_guard = "r.config.SeedMode && !e.Src.IsOutbound()" ∧
+    Facts.conn_least_ratio_guard = "ratio < leastRatio" := by decide
+
 end Tmv.Expect.C17
